@@ -11,7 +11,9 @@ one definition per real step.
    plus random walks of a larger instance.
 2. harness/cmd/d_offline runs every scenario and seeded random histories on REAL multi-node worlds (real detectors fed by
    real votes through the real vote pool, real ProposeBlock / ValidateBlock / AddBlock, real certificates, malicious
-   proposers through the VerifCraftOfflineBlock shim) and records what happened.
+   proposers through the VerifCraftOfflineBlock shim; every proposal is judged by every awake node through
+   OfflineDetector.ValidateBlock, Blockchain.ValidateBlock and - when the proposer's sortition is valid - the validators'
+   whole proposal path pengings.Proposals.AddProposedBlock) and records what happened.
    The committee rule of verifyOfflineProposing (heads above height 3634300, the rule in force on the main network, not
    reachable by a test chain) is bound through a TLC case table (MC_OfflineThr) replayed on a real detector that gets its
    head through its own event bus, the round's validators through PushValidators and real votes through ProcessVote.
@@ -226,7 +228,7 @@ def run(ctx, quick):
     st = _stats(sps) + _stats(rfut.result())
     pool.shutdown()
     ctx.log("real worlds: " + " ".join("%s=%d" % kv for kv in sorted(st.items())))
-    for k in ("blocks", "proposes", "commits", "penalties", "switches", "refused", "forced", "crafted", "epochs", "restarts", "txs", "thr"):
+    for k in ("blocks", "proposes", "commits", "penalties", "switches", "refused", "forced", "crafted", "epochs", "restarts", "txs", "thr", "full"):
         if not st.get(k):
             raise vlib.CheckError("the driver never produced '%s' (dead driver)" % k)
 
@@ -257,7 +259,7 @@ def run(ctx, quick):
     return {
         "od_states": states, "od_transitions": trans, "od_model_cfg": cfg,
         "od_traces_validated_against_impl": st.get("worlds", 0), "od_trace_lines": nlines,
-        "od_real": {k: st.get(k, 0) for k in ("blocks", "proposes", "commits", "penalties", "switches", "refused", "forced", "crafted", "epochs", "restarts", "txs")},
+        "od_real": {k: st.get(k, 0) for k in ("blocks", "proposes", "commits", "penalties", "switches", "refused", "forced", "crafted", "epochs", "restarts", "txs", "full")},
         "od_exported_by_kind": kinds,
         "od_samples": [scen[0]["steps"][:12], walks[0]["steps"][:20]],
         "od_committee_rule_cases": len(thr_cases),
